@@ -388,6 +388,16 @@ def playback(sc, h, pid, timeout):
             tests = [m.group(1)]
     if not tests:
         return None, None, "no concrete playback test produced\n" + out[-2000:]
+    # Kani names a test after the hash of its concrete values: two failed checks with the same
+    # counterexample would define the same function twice
+    uniq, seen_names = [], set()
+    for t in tests:
+        nm = re.search(r"fn (kani_concrete_playback_\w+)", t)
+        key = nm.group(1) if nm else t
+        if key not in seen_names:
+            seen_names.add(key)
+            uniq.append(t)
+    tests = uniq
     rdir = os.path.join(os.environ.get("VERIF_REPLAY_DIR", os.path.join(VERIF, "replays")), pid)
     os.makedirs(rdir, exist_ok=True)
     path = os.path.join(rdir, f"{h['name']}.rs")
